@@ -51,7 +51,7 @@ func (k c27Case) effMAC() string {
 	}
 	return k.mac
 }
-func (k c27Case) inF9() bool { return isCBC(k.ciph) && isEtM(k.mac) }
+func (k c27Case) inCBCEtM() bool { return isCBC(k.ciph) && isEtM(k.mac) }
 
 func goAlgorithmLists() c27Lists {
 	s, i := ssh.SupportedAlgorithms(), ssh.InsecureAlgorithms()
@@ -252,7 +252,7 @@ func TestC27(t *testing.T) {
 		}
 		return out
 	}
-	_, f9Listed := ev.IsKnownFinding(findingCBCEtM)
+	_, cbcEtMListed := ev.IsKnownFinding(findingCBCEtM)
 	rundir := os.Getenv("VF_RUNDIR")
 	if rundir == "" {
 		rundir = t.TempDir()
@@ -266,7 +266,7 @@ func TestC27(t *testing.T) {
 				continue
 			}
 			if o.fail != "" {
-				if o.k.inF9() && f9Listed {
+				if o.k.inCBCEtM() && cbcEtMListed {
 					c.Known(findingCBCEtM + " CBC packet cipher ignores the EtM flag of the negotiated MAC: " + part + " " + o.k.ciph + " + " + o.k.mac + " does not interoperate")
 					continue
 				}
@@ -297,7 +297,7 @@ func TestC27(t *testing.T) {
 	filter := func(cases []c27Case, wantWitness bool) (run []c27Case) {
 		witness := !wantWitness
 		for _, k := range cases {
-			if k.inF9() && f9Listed {
+			if k.inCBCEtM() && cbcEtMListed {
 				if !witness { // one enumerated witness per shard keeps the finding re-derived
 					witness = true
 					run = append(run, k)
@@ -568,7 +568,7 @@ func c27RunB(k c27Case) c27Outcome {
 	}()
 	prog := func() int64 { return a.(moved).Moved() + b.(moved).Moved() }
 	idle := time.Duration(ev.Scale(20, 60)) * time.Second
-	if k.inF9() {
+	if k.inCBCEtM() {
 		idle = 6 * time.Second // known to block (see below); only this class gets the short window
 	}
 	if err := waitProgress(all, prog, idle); err != nil {
@@ -576,7 +576,7 @@ func c27RunB(k c27Case) c27Outcome {
 		b.Close()
 		<-all
 		msg := fmt.Sprintf("no byte moved for the idle window; after closing the link: client %s: %v, refpeer server: %v", cr.step, cr.err, sr.err)
-		if k.inF9() {
+		if k.inCBCEtM() {
 			out.fail = "blocked: " + msg // the CBC reader's camouflage read after a verification error waits for bytes that never come
 		} else {
 			out.inconclusive = msg
